@@ -1,6 +1,57 @@
-import Rbp.Model.Callbacks
+import Rbp.Proofs.Stats
+/-!
+# C15 — every simplestats figure equals an independent recomputation over the range
+Integer figures are proved equal to closed expressions over the delivered block list; means are exact rationals
+`numerator / count` in the model (float rendering is not modelled: the check compares within half a unit of the printed precision).
+-/
 namespace Rbp.Props.C15
-/-- placeholder: the mean's numerator is the exact (unbounded) sum -/
-theorem mean_exact (l : List Nat) : l.foldl (·+·) 0 = l.sum := by
-  rw [← List.sum_eq_foldl]
+open CB
+
+/-- counts, volume and fees: block, transaction, input and output counts, total volume (sum of all output values) and total
+    fees are the plain sums of their per-block definitions over the delivered blocks, and the block-size list is the list of
+    stored length prefixes in chain order -/
+theorem counts_volume_fees_spec (ver : UInt8) (bs : List EBlock) :
+    let r := bs.foldl (statsBlock ver) {}
+    r.blocks = bs.length ∧ r.txs = (bs.map (·.blk.txCount.value)).sum ∧
+    r.fees = (bs.map blockFees).sum ∧ r.ins = (bs.map blockIns).sum ∧
+    r.outs = (bs.map blockOuts).sum ∧ r.volume = (bs.map blockVolume).sum ∧
+    r.sizes = bs.map (·.size) := by
+  have := stats_fold ver bs {}
+  simpa using this
+
+/-- the fee of a coinbase is its first-output value above the subsidy, floored at zero; other transactions contribute none -/
+theorem fee_rule (height : Nat) (t : W.RTx) :
+    txFee height t = if isCoinbase t then (match t.outs with | o :: _ => o.value - reward height | [] => 0) else 0 := rfl
+
+/-- the subsidy is 50 coins halved every 210000 heights -/
+theorem reward_halving (height : Nat) : reward height = 5000000000 / 2 ^ (height / 210000) := by
+  simp [reward, Nat.shiftRight_eq_div_pow]
+
+/-- the mean's numerator is the exact sum of the listed values and its denominator their number (no 32-bit wrap-around) -/
+theorem mean_exact (ver : UInt8) (bs : List EBlock) :
+    ((bs.foldl (statsBlock ver) {}).sizes.foldl (·+·) 0 = (bs.map (·.size)).sum) ∧
+    (bs.foldl (statsBlock ver) {}).sizes.length = bs.length := by
+  have h := (counts_volume_fees_spec ver bs).2.2.2.2.2.2
+  rw [h]
+  constructor
+  · rw [List.sum_eq_foldl]
+  · simp
+
+/-- biggest transaction by value / by size: replaced only on a strictly greater value, so the first one wins on ties -/
+theorem biggest_first_on_ties (ver : UInt8) (height : Nat) (s : Stats) (t : W.RTx) :
+    (txVolume t ≤ s.bigVal.1 → (statsTx ver height s t).bigVal = s.bigVal) ∧
+    (txVolume t > s.bigVal.1 → (statsTx ver height s t).bigVal = (txVolume t, height, txid t)) ∧
+    (t.toBytes.length ≤ s.bigSize.1 → (statsTx ver height s t).bigSize = s.bigSize) ∧
+    (t.toBytes.length > s.bigSize.1 → (statsTx ver height s t).bigSize = (t.toBytes.length, height, txid t)) := by
+  refine ⟨?_, ?_, ?_, ?_⟩ <;> intro h <;> simp [statsTx] <;> omega
+
+/-- time between consecutive blocks: clamped at zero (non-monotonic timestamps), skipped for the first block -/
+theorem time_gap_rule (ver : UInt8) (s : Stats) (b : EBlock) :
+    (statsBlock ver s b).gaps = (if s.lastTs > 0 then s.gaps ++ [b.blk.header.time - s.lastTs] else s.gaps) ∧
+    (statsBlock ver s b).lastTs = b.blk.header.time :=
+  ⟨(statsBlock_step ver s b).2.2.2.2.2.2.2.2, (statsBlock_step ver s b).2.2.2.2.2.2.2.1⟩
+
+/-- non-vacuity: sizes whose sum exceeds 2^32 are summed exactly -/
+example : ([0x90000000, 0x90000000, 0x90000000] : List Nat).sum = 7247757312 ∧ 7247757312 > 2^32 := by decide
+
 end Rbp.Props.C15
